@@ -65,6 +65,14 @@ fn main() {
         let hays = vec!["aab bbb abb", "aabbb", "xay xby", "ab", "xyxy", "yxy", "Ab aB AB", "zz", "abab", "b"];
         let qs = vec![(0, 0, 0), (0, 1, 0), (1, 2, 0), (1, 3, 1), (2, 4, 1), (2, 5, 0), (3, 6, 0), (3, 7, 0), (0, 8, 2), (1, 9, 0)];
         (specs.into_iter().map(|(a, b)| (a.to_string(), b.to_string())).collect(), hays.into_iter().map(|s| s.to_string()).collect(), qs)
+    } else if seed % 1000 == 997 {
+        // fixed "class with gaps" scenario: multi-interval classes probed by one thread with
+        // members that alternate between intervals and by the others with code points that lie
+        // in the gaps (a torn multi-word memo shows as a gap character accepted)
+        let specs = vec![("[a-zа-я]", ""), ("[a-cé-ü]+", ""), ("[^a-cé-ü]", "")];
+        let hays = vec!["яzжaяzжa", "ЖУК ЖУК", "éaüb", "kKdD", "zяaж"];
+        let qs = vec![(0, 0, 0), (0, 1, 0), (0, 4, 0), (0, 1, 0), (1, 2, 0), (1, 3, 0), (2, 2, 0), (2, 3, 0), (0, 0, 0), (0, 1, 0)];
+        (specs.into_iter().map(|(a, b)| (a.to_string(), b.to_string())).collect(), hays.into_iter().map(|s| s.to_string()).collect(), qs)
     } else if seed % 1000 == 998 {
         // fixed many-threads scenario (10 threads on one object): fixed-size tables of
         // per-thread slots overflow only when more searches are in flight than slots
